@@ -254,7 +254,15 @@ impl Mac {
                 // No RX windows follow this uplink; the caller completes with rx2_complete().
                 let (mut tx_config, _) =
                     self.region.create_tx_config(rng, self.configuration.data_rate, &Frame::Data);
-                tx_config.adjust_power(self.board_eirp.max_power, self.board_eirp.antenna_gain);
+                tx_config.adjust_power(
+                    // like every other data uplink: the level commanded by the network applies,
+                    // bounded by the board's own limit
+                    self.configuration
+                        .tx_power
+                        .unwrap_or(self.board_eirp.max_power)
+                        .min(self.board_eirp.max_power),
+                    self.board_eirp.antenna_gain,
+                );
                 (tx_config, fcnt_up)
             })
     }
